@@ -260,6 +260,44 @@ func TestDiffKernel(t *testing.T) {
 		if strings.Join(realList, "\n") != strings.Join(simList, "\n") {
 			fail("final trees differ:\nkernel:\n%s\nsimfs:\n%s", strings.Join(realList, "\n"), strings.Join(simList, "\n"))
 		}
+		// the two tree walkers visit the same entries in the same order as the standard library
+		// (including SkipDir on a drawn directory)
+		skip := names[r.n(len(names))]
+		var w1, w2, w3, w4 []string
+		_ = filepath.WalkDir(realRoot, func(p string, d fs.DirEntry, err error) error {
+			w1 = append(w1, fmt.Sprintf("%s dir=%v err=%v", strings.TrimPrefix(p, realRoot), d != nil && d.IsDir(), err != nil))
+			if strings.TrimPrefix(p, realRoot) == "/"+skip {
+				return filepath.SkipDir
+			}
+			return nil
+		})
+		_ = WalkDir(simRoot, func(p string, d fs.DirEntry, err error) error {
+			w2 = append(w2, fmt.Sprintf("%s dir=%v err=%v", strings.TrimPrefix(p, simRoot), d != nil && d.IsDir(), err != nil))
+			if strings.TrimPrefix(p, simRoot) == "/"+skip {
+				return filepath.SkipDir
+			}
+			return nil
+		})
+		_ = filepath.Walk(realRoot, func(p string, i fs.FileInfo, err error) error {
+			w3 = append(w3, fmt.Sprintf("%s dir=%v err=%v", strings.TrimPrefix(p, realRoot), i != nil && i.IsDir(), err != nil))
+			if strings.TrimPrefix(p, realRoot) == "/"+skip && i.IsDir() {
+				return filepath.SkipDir
+			}
+			return nil
+		})
+		_ = Walk(simRoot, func(p string, i fs.FileInfo, err error) error {
+			w4 = append(w4, fmt.Sprintf("%s dir=%v err=%v", strings.TrimPrefix(p, simRoot), i != nil && i.IsDir(), err != nil))
+			if strings.TrimPrefix(p, simRoot) == "/"+skip && i.IsDir() {
+				return filepath.SkipDir
+			}
+			return nil
+		})
+		if strings.Join(w1, "\n") != strings.Join(w2, "\n") {
+			fail("WalkDir differs (skip %s):\nkernel:\n%s\nsimfs:\n%s", skip, strings.Join(w1, "\n"), strings.Join(w2, "\n"))
+		}
+		if strings.Join(w3, "\n") != strings.Join(w4, "\n") {
+			fail("Walk differs (skip %s):\nkernel:\n%s\nsimfs:\n%s", skip, strings.Join(w3, "\n"), strings.Join(w4, "\n"))
+		}
 		restore()
 	}
 }
